@@ -19,6 +19,14 @@ HNext == /\ \/ \E c \in Objs, q \in ReqSet : CanonCreate(c) /\ Create(c, q)
             \/ \E exc \in BOOLEAN : Exit(exc)
          /\ hist' = Append(hist, last')
 HSpec == HInit /\ [][HNext]_hvars
+\* the same with body writes (at most two per behaviour: they only matter between an Enter and its Exit)
+NBody == Cardinality({i \in 1..Len(hist) : hist[i][1] = "BodyWrite"})
+HNextBody == /\ \/ \E c \in Objs, q \in ReqSet : CanonCreate(c) /\ Create(c, q)
+                \/ \E c \in Objs : Enter(c)
+                \/ \E exc \in BOOLEAN : Exit(exc)
+                \/ (NBody < 2 /\ \E k \in BodyWrites : BodyWrite(k))
+             /\ hist' = Append(hist, last')
+HSpecBody == HInit /\ [][HNextBody]_hvars
 HBounded == Len(hist) <= MaxLevel
 Emit == (Len(hist) = MaxLevel) => PrintT(<<"H", WordOfReg(init), hist>>)
 =============================================================================
